@@ -103,7 +103,7 @@ def _perform_decrypt(obj: EncryptionData, registry: JWERegistry) -> None:
         try:
             cek = decrypt_recipient(alg, enc, recipient, tag)
             cek_set.add(cek)
-        except (AssertionError, JoseError) as error:
+        except (AssertionError, ValueError, JoseError) as error:
             if registry.verify_all_recipients:
                 raise error
 
